@@ -47,6 +47,9 @@ var c02Preds = []c02Pred{
 	{"[0,1]", func() ref.Node { return &ref.Arr{Items: []ref.Node{rnum(0), rnum(1)}} }},
 	{"0.5", func() ref.Node { return rnum(0.5) }},
 	{"$$.a", func() ref.Node { return &ref.Path{Steps: []ref.Node{rvar("$"), rname("a")}, KeepAt: -1} }},
+	{"a=1", func() ref.Node { return &ref.Bin{Op: "=", L: rp("a"), R: rnum(1)} }},
+	{"b>1", func() ref.Node { return &ref.Bin{Op: ">", L: rp("b"), R: rnum(1)} }}, // an error on items whose b is a string
+	{"$>0", func() ref.Node { return &ref.Bin{Op: ">", L: rvar(""), R: rnum(0)} }},
 }
 
 // c02Heads: shape h applied to filters f...: name steps accumulate filters on one
@@ -78,12 +81,16 @@ func c02Head(h int, fs []ref.Node) ref.Node {
 		return nested(rvar(""))
 	case 8: // $$.a[p]
 		return &ref.Path{Steps: []ref.Node{rvar("$"), onName("a")}, KeepAt: -1}
-	default: // a[p][] keep-array marker
+	case 9: // a[p][] keep-array marker
 		return &ref.Path{Steps: []ref.Node{onName("a")}, Keep: true, KeepAt: -1}
+	case 10: // a.[b, a][p]: a predicate on an array-constructor step that is not the first step
+		return rpath(rname("a"), nested(&ref.Arr{Items: []ref.Node{rp("b"), rp("a")}}))
+	default: // a.(b)[p]: on a parenthesised step
+		return rpath(rname("a"), nested(&ref.Paren{Exprs: []ref.Node{rp("b")}}))
 	}
 }
 
-const c02NumHeads = 10
+const c02NumHeads = 12
 
 func c02SpecialDocs() []interface{} {
 	o := func(kv ...interface{}) map[string]interface{} {
@@ -102,6 +109,8 @@ func c02SpecialDocs() []interface{} {
 		o("a", []interface{}{1.0, 2.0, 3.0}, "b", []interface{}{0.0, 2.0}),                          // index array from the document
 		[]interface{}{o("a", []interface{}{1.0, 2.0}), o("a", []interface{}{3.0})},                  // array input
 		o("a", []interface{}{o("b", o("a", 1.0)), o("b", o("a", 0.0)), o("b", "x")}),
+		o("a", []interface{}{o("b", 1.0, "a", 1.0), o("b", "x", "a", "x"), o("b", 3.0, "a", 1.0)}), // members of different kinds in different elements
+		o("a", []interface{}{o("b", 1.0, "a", 2.0), o("b", 3.0, "a", 4.0)}),
 	}
 }
 
